@@ -29,7 +29,7 @@ def job_matrix(job):
     n = 0
 
     def fail(rec):
-        cat = rec.get('what')
+        cat = (rec.get('what'), str(rec.get('error'))[:40])
         seen[cat] = seen.get(cat, 0) + 1
         if seen[cat] <= 2:
             out['failures'].append(rec)
@@ -182,7 +182,7 @@ def job_series(job):
     seen = {}
 
     def fail(rec):
-        cat = rec.get('what')
+        cat = (rec.get('what'), str(rec.get('error'))[:40])
         seen[cat] = seen.get(cat, 0) + 1
         if seen[cat] <= 2:
             out['failures'].append(rec)
@@ -354,7 +354,7 @@ def job_graph(job):
     seen = {}
 
     def fail(rec):
-        cat = rec.get('what')
+        cat = (rec.get('what'), str(rec.get('error'))[:40])
         seen[cat] = seen.get(cat, 0) + 1
         if seen[cat] <= 2:
             out['failures'].append(rec)
